@@ -1,6 +1,6 @@
 ------------------------------- MODULE GenUtil -------------------------------
 (* Sessions for C19: drawn sequences of write*/print* commands; the acceptor replays them on Util.tla *)
-EXTENDS Integers, Sequences, TLC, Json
+EXTENDS Integers, Sequences, FiniteSets, TLC, Json
 CONSTANT MaxLen
 VARIABLES s, n
 Vals == {<<0, 0, 0, 0>>, <<1, 0, 0, 0>>, <<127, 0, 0, 0>>, <<255, 0, 0, 0>>, <<52, 18, 0, 0>>, <<255, 255, 0, 0>>,
@@ -11,8 +11,16 @@ P(w, a, b) == [k |-> "print", w |-> w, a |-> a, b |-> b]
 Cmds == {W(w, a, <<v>>) : w \in {1, 2, 4}, a \in Addrs, v \in Vals}
         \cup {W(w, a, <<v1, v2, v3>>) : w \in {1, 2, 4}, a \in {16, 64}, v1 \in {<<1, 0, 0, 0>>}, v2 \in Vals, v3 \in {<<52, 18, 0, 0>>}}
         \cup {P(w, a, b) : w \in {1, 2, 4}, a \in {0, 16, 32, 64, 256, 4096}, b \in {0, 20, 36, 68, 80, 260, 4100, 4128}}
+\* fetch sessions: write a load-immediate instruction byte by byte, optionally overwrite its immediate with
+\* another write (8, 16 or 32 bits wide, which the byte order then places), execute it
+FetchCases == {[cpu |-> cpu, pc |-> pc, imm |-> imm, ow |-> ow, ov |-> ov] :
+                 cpu \in {"msp430", "6502", "z80", "avr8"}, pc \in {256, 512, 4096}, imm \in {0, 1, 90, 128, 255, 4660, 65535},
+                 ow \in {0, 1, 2}, ov \in {<<165, 0, 0, 0>>, <<52, 18, 0, 0>>}}
 Init == s = <<>> /\ n \in 2..MaxLen
 NextR == Len(s) < n /\ s' = Append(s, RandomElement(Cmds)) /\ UNCHANGED n
 SpecR == Init /\ [][NextR]_<<s, n>>
 Emit == Len(s) = n => PrintT("CASE " \o ToJson(s))
+InitF == s = <<>> /\ n = 0
+NextF == FALSE /\ UNCHANGED <<s, n>>
+EmitFetch == (s = <<>>) => PrintT("FETCH " \o ToJson(FetchCases))
 =============================================================================
